@@ -1294,7 +1294,9 @@ class ClassicChannel(utils.EventEmitter):
 
         self._disconnect_sync()
         if self.disconnection_result:
-            return await self.disconnection_result
+            return await self.connection.cancel_on_disconnection(
+                self.disconnection_result
+            )
 
     def abort(self) -> None:
         if self.state == self.State.OPEN:
